@@ -91,10 +91,10 @@ class Coordinates:
             List of distances between each station and site.
 
         """
-        dist = np.sqrt(
-            (self.dset_lons % 360 - np.array(lon) % 360) ** 2
-            + (self.dset_lats - np.array(lat)) ** 2
-        )
+        # Longitude difference taken the short way around the globe
+        dlon = np.abs(self.dset_lons % 360 - np.array(lon) % 360)
+        dlon = np.minimum(dlon, 360 - dlon)
+        dist = np.sqrt(dlon ** 2 + (self.dset_lats - np.array(lat)) ** 2)
         if isinstance(dist, xr.DataArray):
             dist = dist.values
         return np.abs(dist)
